@@ -203,3 +203,9 @@ def quadrature(vc):
     r = vc.call('setigen.voltage.data_stream:BackgroundDataStream._set_all_bg_noise', bg)
     vc.ensure('C11/_set_all_bg_noise/post/every-antenna-stream-sees-exactly-the-background-deviation',
               And(r.ok, eq(s.fields['bg_noise_std'], Real('any_bg_std')), eq(s2.fields['bg_noise_std'], Real('any_bg_std'))))
+
+
+# "k = 4*round(df*dt)" is a clause of this property: the degrees of freedom every chi-squared draw uses are fixed by the constructor.
+# C05's constructor contract (all three construction routes, both orientations, plain and unit-carrying arguments) - discharged again here.
+from . import c05 as _C5
+contract('C11', 'degrees_of_freedom_set_by_the_constructor', functions=[FR + '.__init__'])(_C5.frame_init)
